@@ -323,7 +323,7 @@ fn gen_tcp(r: &mut Rng, extras: bool) -> Vec<Vec<Tok>> {
     let chs: Vec<&[u8]> = (0..2 + r.below(3)).map(|_| *r.pick(TCH)).collect();
     let pats: Vec<&[u8]> = (0..2 + r.below(3)).map(|_| *r.pick(TPAT)).collect();
     let mut ops: Vec<Vec<Tok>> = (1..=n).map(conn_op).collect();
-    let mut live: Vec<i64> = (1..=n).collect(); let mut next_id = n + 1;     // ids are never reused: a closed
+    let mut live: Vec<i64> = (1..=n).collect(); let mut next_id = n + 1; let mut zombies: Vec<i64> = vec![];     // ids are never reused: a closed
     let mut serial = 0u32;                                                  // connection may linger in the server
     let names = |r: &mut Rng, pool: &[&[u8]], max: u64| -> Vec<Vec<u8>> { (0..1 + r.below(max)).map(|_| r.pick(pool).to_vec()).collect() };
     let cmd = |c: i64, name: &[u8], args: &[Vec<u8>]| -> Vec<Tok> { let mut a: Vec<&[u8]> = vec![name]; for x in args { a.push(x); } subcmd_op(c, &a) };
@@ -331,7 +331,8 @@ fn gen_tcp(r: &mut Rng, extras: bool) -> Vec<Vec<Tok>> {
     for _ in 0..len {
         if live.len() < 2 { ops.push(conn_op(next_id)); live.push(next_id); next_id += 1; }
         let c = *r.pick(&live);
-        match r.below(100) {
+        let roll = if extras && r.chance(1, 7) { 99 } else { r.below(100) };
+        match roll {
             0..=19 => ops.push(cmd(c, if r.chance(1, 6) { b"subscribe" } else { b"SUBSCRIBE" }, &names(r, &chs, 3))),
             20..=35 => ops.push(cmd(c, b"PSUBSCRIBE", &names(r, &pats, 3))),
             36..=43 => ops.push(cmd(c, b"UNSUBSCRIBE", &names(r, &chs, 3))),
@@ -365,7 +366,7 @@ fn gen_tcp(r: &mut Rng, extras: bool) -> Vec<Vec<Tok>> {
             }
             _ if extras => {
                 match r.below(4) {
-                    0 => { ops.push(cmd(c, b"QUIT", &[])); if live.len() > 2 { live.retain(|x| *x != c); } }
+                    0 => { ops.push(cmd(c, b"QUIT", &[])); live.retain(|x| *x != c); zombies.push(c); }
                     1 => { // pipelined: replies owed before a SUBSCRIBE, in one chunk
                         let mut w = vec![];
                         V::cmd(&[b"PING"]).wire(&mut w); V::cmd(&[b"SUBSCRIBE", *r.pick(&chs)]).wire(&mut w); V::cmd(&[b"ECHO", b"after"]).wire(&mut w);
@@ -377,7 +378,8 @@ fn gen_tcp(r: &mut Rng, extras: bool) -> Vec<Vec<Tok>> {
                         ops.push(raw_op(c, &[w]));
                     }
                     _ => { // inside MULTI the pub/sub commands run at once (class tx-immediate); one reply frame each
-                        ops.push(drain_op(c));
+                        // (CMD reads one frame: the connection must not receive its own publish)
+                        ops.push(cmd(c, b"UNSUBSCRIBE", &[])); ops.push(cmd(c, b"PUNSUBSCRIBE", &[]));
                         ops.push(cmd_op(c, &[b"MULTI"])); ops.push(cmd_op(c, &[b"SET", b"k", b"1"]));
                         if r.chance(1, 2) { ops.push(cmd_op(c, &[b"SUBSCRIBE", *r.pick(&chs)])); } else { ops.push(cmd_op(c, &[b"PUBLISH", *r.pick(&chs), &payload(r, &mut serial)])); }
                         ops.push(cmd_op(c, &[if r.chance(1, 2) { b"EXEC" } else { b"DISCARD" }]));
@@ -387,6 +389,8 @@ fn gen_tcp(r: &mut Rng, extras: bool) -> Vec<Vec<Tok>> {
             }
             _ => ops.push(drain_op(c)),
         }
+        // a connection that sent QUIT while subscribed lingers (closing-leak): it still receives, and goes when it unsubscribes
+        if !zombies.is_empty() && r.chance(1, 6) { let z = *r.pick(&zombies); if r.chance(1, 2) { ops.push(drain_op(z)); } else { ops.push(cmd(z, b"UNSUBSCRIBE", &[])); ops.push(cmd(z, b"PUNSUBSCRIBE", &[])); } }
     }
     // dump: everything pending, then one publish per pool channel seen by everybody
     for d in &live { ops.push(drain_op(*d)); }
